@@ -113,7 +113,11 @@ RE_HARNESS = re.compile(r"^Checking harness ([\w:]+)\.\.\.", re.M)
 def run_kani(ws, package, harnesses, target_dir, log_path, timeout_s, mem_gb=20,
              jobs=1, extra=None, env_extra=None):
     """One cargo-kani process over the given harness names (exact)."""
-    cmd = ["cargo", "kani", "-p", package, "-Z", "stubbing", "--exact"]
+    # --no-assertion-reach-checks: kani's per-assertion reachability covers make CBMC emit a
+    # full JSON trace each (measured 381 MB / 60 s of a 76 s run); vacuity is guarded by the
+    # explicit kani::cover! witnesses instead
+    cmd = ["cargo", "kani", "-p", package, "-Z", "stubbing", "-Z", "unstable-options",
+           "--no-assertion-reach-checks", "--exact"]
     for h in harnesses:
         cmd += ["--harness", h]
     if jobs > 1:
@@ -219,6 +223,11 @@ def harness_index():
             base = MODPATH[mf]
             for n in names:
                 idx[n] = (crate, (base + "::" if base else "") + mn + "::" + n)
+            if mn == "verif_rules_h":
+                import gen_rules
+                for (uname, *_rest) in gen_rules.UNITS:
+                    for n in ("c04c02_unit_" + uname, "c04_gen_" + uname):
+                        idx[n] = (crate, base + "::" + mn + "::gen::" + n)
     return idx
 
 
@@ -256,6 +265,28 @@ def gen_completion_tables(ws):
     return tables
 
 
+def rename_raw_idents(ws):
+    """kani's stub path resolver cannot name raw identifiers (r#let, r#if, r#assert, r#type):
+    rename them in the scratch copy (purely textual, semantics preserving)."""
+    files = ["crates/syntax/src/grammar.rs", "crates/syntax/src/grammar/statement.rs",
+             "crates/syntax/src/grammar/value.rs", "crates/syntax/src/grammar/type.rs"]
+    n = 0
+    for f in files:
+        pth = os.path.join(ws, f)
+        if not os.path.exists(pth):
+            raise Inconclusive(f"anchor file {f} is gone")
+        t = open(pth).read()
+        for a, b in (("r#type", "type_"), ("r#let", "let_"), ("r#if", "if_"), ("r#assert", "assert_")):
+            n += t.count(a)
+            t = t.replace(a, b)
+        t = t.replace("pub mod type_;", '#[path = "grammar/type.rs"]\npub mod type_;')
+        # the two private statement rules are made visible to the harness module
+        t = t.replace("\nfn if_(", "\npub(super) fn if_(").replace("\nfn assert_(", "\npub(super) fn assert_(")
+        open(pth, "w").write(t)
+    if n == 0:
+        raise Inconclusive("no raw identifiers found to rename (anchor changed)")
+
+
 def assemble(ws, crates):
     listed = set()
     for crate in crates:
@@ -265,6 +296,12 @@ def assemble(ws, crates):
                 append_mod(ws, mf, mn, src)
         for (file, pattern, repl, what) in PATCHES.get(crate, []):
             regex_patch(ws, file, pattern, repl, what)
+        if crate == "syntax":
+            rename_raw_idents(ws)
+            import gen_rules
+            src, _names = gen_rules.gen()
+            os.makedirs(os.path.join(ws, "verif_h"), exist_ok=True)
+            open(os.path.join(ws, "verif_h", "rules_gen.rs"), "w").write(src)
         lib = {"syntax": "crates/syntax/src/lib.rs", "ide": "crates/ide/src/lib.rs",
                "lsp": "crates/lsp/src/lib.rs"}[crate]
         listed = write_kf_module(ws, lib, KF_IDS)
@@ -279,11 +316,21 @@ import queue  # noqa: E402
 import threading  # noqa: E402
 
 
-def run_plan(ws, root, plan, idx, nslots, extra_args=None, tag=""):
-    """plan: list of dict(name, timeout, mem_gb, weight). Returns {name: result}."""
+def run_plan(ws, root, plan, idx, nslots, extra_args=None, tag="", batch=None):
+    """plan: list of dict(name, timeout, mem_gb, weight). Returns {name: result}.
+    Harnesses are verified in batches: one cargo-kani process (one compilation) per batch,
+    the harnesses of a batch sequentially; a batch that dies is re-run harness by harness."""
+    ordered = sorted(plan, key=lambda h: -h.get("weight", 10))
+    if batch is None:
+        batch = max(1, min(6, (len(ordered) + nslots - 1) // nslots))
+    # deal round-robin so that heavy harnesses spread over batches
+    nb = (len(ordered) + batch - 1) // batch
+    batches = [[] for _ in range(nb)]
+    for i, h in enumerate(ordered):
+        batches[i % nb].append(h)
     q = queue.Queue()
-    for h in sorted(plan, key=lambda h: -h.get("weight", 10)):
-        q.put(h)
+    for bch in batches:
+        q.put(bch)
     results = {}
     lock = threading.Lock()
     logs = os.path.join(root, "logs" + tag)
@@ -292,28 +339,50 @@ def run_plan(ws, root, plan, idx, nslots, extra_args=None, tag=""):
     def worker(slot):
         while True:
             try:
-                h = q.get_nowait()
+                bch = q.get_nowait()
             except queue.Empty:
                 return
-            crate, fq = idx[h["name"]]
+            crate = idx[bch[0]["name"]][0]
+            same = [h for h in bch if idx[h["name"]][0] == crate]
+            rest = [h for h in bch if idx[h["name"]][0] != crate]
+            if rest:
+                q.put(rest)
             td = os.path.join(CACHE, "kt", f"{crate}-{slot}")
             os.makedirs(td, exist_ok=True)
-            lp = os.path.join(logs, h["name"] + ".log")
-            rc, wall = run_kani(ws, PACKAGE_OF[crate], [fq], td, lp, h.get("timeout", 900),
-                                mem_gb=h.get("mem_gb", 16), extra=extra_args)
+            lp = os.path.join(logs, same[0]["name"] + (f"+{len(same) - 1}" if len(same) > 1 else "") + ".log")
+            fqs = [idx[h["name"]][1] for h in same]
+            tmo = sum(h.get("timeout", 900) for h in same)
+            rc, wall = run_kani(ws, PACKAGE_OF[crate], fqs, td, lp, tmo,
+                                mem_gb=max(h.get("mem_gb", 16) for h in same), extra=extra_args)
             res, meta, txt = parse_kani_log(lp)
-            r = res.get(h["name"], {"status": "UNKNOWN", "failed": [], "covers": {}, "n_checks": 0,
-                                    "n_failed": 0, "solver_s": 0.0, "stubs": []})
-            r["rc"] = rc
-            r["wall_s"] = round(wall, 1)
-            r["log"] = lp
-            r["compile_error"] = meta["compile_error"]
-            if rc == 124 or rc == 137:
-                r["status"] = "TIMEOUT"
-            with lock:
-                results[h["name"]] = r
-            log(f"  [{slot}] {h['name']}: {r['status']} ({wall:.0f}s, {r['n_checks']} checks, "
-                f"{r['n_failed']} failed)")
+            missing = []
+            for h in same:
+                r = res.get(h["name"])
+                if r is None:
+                    missing.append(h)
+                    continue
+                r["rc"] = rc
+                r["wall_s"] = r.get("verif_s") or round(wall, 1)
+                r["log"] = lp
+                r["compile_error"] = None
+                if r["status"] == "UNKNOWN" and rc in (124, 137):
+                    r["status"] = "TIMEOUT"
+                with lock:
+                    results[h["name"]] = r
+                log(f"  [{slot}] {h['name']}: {r['status']} ({r['wall_s']}s, {r['n_checks']} checks, "
+                    f"{r['n_failed']} failed)")
+            if missing:
+                if len(same) > 1 and not meta["compile_error"]:
+                    for h in missing:     # the batch died: retry one by one
+                        q.put([h])
+                else:
+                    for h in missing:
+                        r = {"status": "TIMEOUT" if rc in (124, 137) else "UNKNOWN", "failed": [], "covers": {},
+                             "n_checks": 0, "n_failed": 0, "solver_s": 0.0, "stubs": [], "rc": rc,
+                             "wall_s": round(wall, 1), "log": lp, "compile_error": meta["compile_error"]}
+                        with lock:
+                            results[h["name"]] = r
+                        log(f"  [{slot}] {h['name']}: {r['status']} (rc {rc}, {wall:.0f}s)")
 
     threads = [threading.Thread(target=worker, args=(i,)) for i in range(nslots)]
     for t in threads:
@@ -610,6 +679,7 @@ def functions_in_log(path):
 REPLAYS = {
     "l1": replay_parse(oracle_c01c02, decode_l1),
     "pp_hang": replay_search(oracle_c02, PP_ALPHABET, 6),
+    "l2": lambda *a: (None, {"reason": "L2 replay not implemented yet"}),
 }
 
 
